@@ -460,6 +460,46 @@ def toNativeIn (c : Cfg) (eb fb : Nat) (b : Nat) : Val :=
       if -64 < ex ∧ ex < 64 then sgn (rndIeee eb fb (rnd (pow2 ex) * rnd (1 + f)))
       else sgn (rndIeee eb fb (valToRat (rndIeee 11 52 (pow2 ex * valToRat (rndIeee 11 52 (1 + f))))))
 
+/-- `ipow(exponent)` — a `double`: 2^e for −1074 ≤ e ≤ 1023 (exponentiation by squaring of 2.0 / 0.5, every product a
+    power of two), 0 below, +∞ (`none`) above -/
+def ipowDouble (e : Int) : Option Rat :=
+  if e > 1023 then none else if e < -1074 then some 0 else some (pow2 e)
+
+/-- `to_native<long double>` (x86-64: 15 exponent bits, 64-bit significand = 63 fraction bits), computed step by step in
+    that precision as the code does: the fraction bit by bit, `1 + f` (rounds when fbits ≥ 64), the power of two built
+    from `1ull << |e|` for |e| < 64 and **through the `double` function `ipow` otherwise** (0 below 2^−1074, ∞ above
+    2^1023 — configurations with es > 11 leave that range), subnormal encodings through the `double` table
+    `subnormal_exponent[es]` (0.0 for es ≥ 12: every subnormal of such a configuration reads back as ±0). -/
+def toNativeLD (c : Cfg) (b : Nat) : Val :=
+  let eb := 15
+  let fbn := 63
+  let s := c.signOf b
+  if isZero c b then .fin s 0
+  else if isNan c b then .nan s
+  else if isInf c b then .inf s
+  else
+    let rnd (x : Rat) : Rat := valToRat (rndIeee eb fbn x)
+    -- sums of distinct powers 2^-1 … 2^-64 are long doubles: the partial sums only round for fbits > 64
+    let f : Rat :=
+      if c.fbits ≤ 64 then (c.fracOf b : Rat) / ((2 ^ c.fbits : Nat) : Rat)
+      else (List.range c.fbits).foldl (fun acc k =>
+        if (c.fracOf b).testBit (c.fbits - 1 - k) then rnd (acc + rnd (pow2 (-((k : Int) + 1)))) else acc) 0
+    let e := c.expOf b
+    let sgn (v : Val) : Val := match v with
+      | .fin _ m => .fin s m
+      | .inf _ => .inf s
+      | v => v
+    if c.sub ∧ e = 0 then
+      let (m, k) := subnormalExponent.getD c.es (0, 0)
+      sgn (rndIeee eb fbn (dyadic m k * f))
+    else if ¬ c.sup ∧ e = c.emax then .nan false
+    else
+      let ex : Int := (e : Int) - c.bias
+      if -64 < ex ∧ ex < 64 then sgn (rndIeee eb fbn (pow2 ex * rnd (1 + f)))
+      else match ipowDouble ex with
+        | none => .inf s
+        | some p => sgn (rndIeee eb fbn (p * rnd (1 + f)))
+
 /-! ### conversion from native IEEE-754 (convert_ieee754, cfloat_impl.hpp:2346-2822) -/
 
 /-- post-processing of convert_ieee754 (cfloat_impl.hpp:2804-2819) -/
@@ -538,6 +578,74 @@ def fromIeee (c : Cfg) (seb sfb : Nat) (qmask smask : Nat) (bits : Nat) : Nat :=
       if rawExp ≠ 0 then
         let raw := ((((if s then 1 else 0) <<< c.es) ||| biased) <<< fb ||| (rawFrac <<< (fb - sfb))) % 2 ^ c.nbits
         postProcess c raw
+      else postProcess c 0
+
+/-- `convert_ieee754<long double>` on x86-64 (gcc). The transcript form of the source is sign | 15 exponent bits | 63
+    fraction bits: exactly the fields `extractFields(long double, …)` reads through `long_double_decoder`
+    (`parts.fraction : 63`, `parts.bit63 : 1` — the explicit integer bit, never read —, `parts.exponent : 15`, `parts.sign`);
+    there is NO detour through double in this build (`LONG_DOUBLE_DOWNCAST` is only defined when bit_cast is not constexpr).
+    What differs from the float/double instantiations (`fromIeee`):
+    * sizeof(long double) = 16: neither identical-layout copy branch is taken;
+    * `ieee754_parameter<long double>::hmask` = 0x8000'0000'0000'0001 (`hmask`, regenerated): or-ing the hidden bit into a
+      value of the target's subnormal range also sets bit 0, which then reads as round / sticky;
+    * `qnanmask / snanmask` are the binary64 masks (bits 62…51 / 62…50 of the 63-bit fraction);
+    * in the subnormal range the shift `rightShift + adjustment` reaches 64 at exponent MIN_EXP_SUBNORMAL − 1 (for float /
+      double it stays below the width): `1ull << 64` and `rawFraction >>= 64` are undefined; the x86-64 code g++ emits
+      takes the count modulo 64 (`tm`), the sticky mask uses the true count;
+    * `bits` is a uint64_t: requires nbits ≤ 64 on the narrowing path (fbits < 63);
+    * fbits ≥ 63 implies nbits ≥ 65: the block path (`setbits(biasedExponent); shiftLeft(fbits);` fraction blocks
+      shifted by fbits − 63 and or-ed in, `&= MSU_MASK`, `setsign`), `biasedExponent` = exponent + bias as a uint64_t —
+      it wraps for exponents below the target's normal range (no subnormal handling on this path). -/
+def fromLD (c : Cfg) (qmask smask hmask : Nat) (bits : Nat) : Nat :=
+  let seb := 15
+  let sfb := 63
+  let fb := c.fbits
+  let s := bits.testBit (seb + sfb)
+  let rawExp := (bits >>> sfb) % 2 ^ seb
+  let rawFrac := bits % 2 ^ sfb
+  let sbias : Int := (2 ^ (seb - 1) : Nat) - 1
+  match ieeeSpecial c seb sfb qmask smask bits with
+  | some r => r
+  | none =>
+  if rawExp = 0 ∧ rawFrac = 0 then signBit c s
+  else
+    let exponent : Int := (rawExp : Int) - sbias
+    if exponent > c.maxExp then
+      (if c.sat then (if s then maxnegEnc c else maxposEnc c) else setInf c s)
+    else if c.sub ∧ exponent < c.minExpSubnormal - 1 then signBit c s
+    else if ¬ c.sub ∧ exponent < c.minExpNormal then signBit c s
+    else if fb < sfb then
+      let rightShift := sfb - fb
+      if rawExp ≠ 0 then
+        let subn := exponent < c.minExpNormal
+        let frac := if subn then rawFrac ||| hmask else rawFrac
+        let biased : Nat := if subn then 0 else (exponent + c.bias).toNat
+        let adj : Nat := if subn then (-(exponent + c.srs)).toNat else 0
+        let t := rightShift + adj
+        let tm := t % 64
+        let lsb := frac.testBit tm
+        let guard := tm ≥ 1 && frac.testBit (tm - 1)
+        let round := tm ≥ 2 && frac.testBit (tm - 2)
+        let sticky := t ≥ 2 && frac % 2 ^ (t - 2) != 0
+        let fr0 := frac >>> tm
+        let fr1 := if guard then
+            (if lsb && !round && !sticky then fr0 + 1 else fr0) + (if round || sticky then 1 else 0)
+          else fr0
+        let (be, fr) :=
+          if guard ∧ fr1 = 2 ^ fb then (if biased = c.emax then (biased, 2 ^ fb - 2) else (biased + 1, 0))
+          else (biased, fr1)
+        let raw := (((((if s then 1 else 0) <<< c.es) ||| be) <<< fb) % 2 ^ 64 ||| fr) % 2 ^ c.nbits
+        postProcess c raw
+      else
+        -- the source is a subnormal long double: "TBD" in the code, the cleared value (+0) is returned
+        postProcess c 0
+    else
+      if rawExp ≠ 0 then
+        let store := 2 ^ (c.nrBlocks * c.bt)
+        let biasedU : Nat := ((exponent + c.bias) % ((2 ^ 64 : Nat) : Int)).toNat
+        let ex := ((biasedU % 2 ^ c.nbits) <<< fb) % store
+        let fr := (rawFrac <<< (fb - sfb)) % store
+        postProcess c (setSign c ((ex ||| fr) % 2 ^ c.nbits) s)
       else postProcess c 0
 
 /-! ### conversion from native integers (convert_signed/unsigned_integer + round<>, cfloat_impl.hpp:2269-2342, 2855) -/
